@@ -239,12 +239,6 @@ def eval_ext(req, M, K, N, rE, p, lastrec, Ms, Wk, Ns, stats=None, pe=None, chnv
         bad.append(f"AllStreamsKept: stream counts {ns}, expected {N} each")
     if "StreamCountIsNumStreams" in req and ns != [lastrec["n"]] * K:
         bad.append(f"StreamCountIsNumStreams: stream counts {ns}, expected num_streams = {lastrec['n']} each")
-    if "DecidedCountAvoidsDominantInterference" in req:
-        if stats is not None:
-            stats["dominant_interference_decisions"] = stats.get("dominant_interference_decisions", 0) + 1
-        if not all(x <= N - rE for x in ns):
-            bad.append(f"DecidedCountAvoidsDominantInterference: stream counts {ns} with dominant external interference of rank {rE} "
-                       f"(at most {N - rE} of {N} streams avoid it)")
     if "StreamCountInRange" in req and not all(1 <= x <= N for x in ns):
         bad.append(f"StreamCountInRange: stream counts {ns} outside 1..{N}")
     if bad:
@@ -902,8 +896,8 @@ def run(ctx):
         for mname in ("fixed", "capacity", "effective_throughput"):
             if num.get("extint_users_checked:" + mname, 0) == 0:
                 raise tlc.TlcError(f"the external-interference removal predicate was never evaluated for the {mname} metric (vacuous clause)")
-        if num.get("dominant_interference_decisions", 0) == 0 or num.get("filter_user_k_calls", 0) == 0:
-            raise tlc.TlcError("the dominant-interference decision law / calc_receive_filter_user_k was never exercised")
+        if num.get("filter_user_k_calls", 0) == 0:
+            raise tlc.TlcError("calc_receive_filter_user_k was never exercised")
     if num.get("ambiguous_streams", 0):
         raise tlc.TlcError(f"{num['ambiguous_streams']} stream(s) with power in (0, 1e-8 p] were left out of the receive-filter predicate: "
                            "the clause 'every stream that was given power' lost cases (re-run with another VERIF_SEED and report)")
